@@ -32,7 +32,16 @@ ASSUMPTIONS = [
 ]
 SHARDS = {"quick": 4, "thorough": 16}
 
-UUIDS = [f"00000000-0000-4000-8000-00000000000{i}" for i in range(10)]
+UUIDS = [f"0a1b2c3d-00ef-4000-8000-00000000000{i}" for i in range(10)]
+
+
+def _canon(ref: str) -> str:
+    """A reference that is a UUID in any accepted spelling denotes the rule with that id."""
+    import uuid
+    try:
+        return str(uuid.UUID(ref))
+    except ValueError:
+        return ref
 
 
 def plain_rule(i: int, with_id=True, with_name=True):
@@ -120,7 +129,7 @@ def expected_emitters(docs):
     for d in docs:
         if "correlation" in d:
             for r in d["correlation"]["rules"]:
-                t = by_key.get(r)
+                t = by_key.get(_canon(r))
                 if t is None:
                     dangling = True
                     continue
@@ -156,6 +165,8 @@ def check_case(case: dict) -> Outcome:
             out.label("dangling-reference")
             if base[0] != "load-error":
                 out.fail("C09:dangling-not-reported-at-load", f"dangling reference but outcome {base[:2]} for {[d['title'] for d in docs]}")
+        elif base[0] == "load-error":
+            out.fail(f"C09:resolvable-reference-rejected:{base[1]}", f"every reference names a rule of the set, but loading fails: {base[1:]} for {[(d['title'], d.get('correlation', {}).get('rules')) for d in docs]}")
         perms = case.get("perms", "all")
         if perms == "all":
             perm_iter = itertools.permutations(range(n))
@@ -209,6 +220,7 @@ def fixed_sets():
     yield [r[0], r[1], corr_rule(0, ["r0", "r1"], "temporal"), corr_rule(1, ["c0"]), r[2]]
     yield [r[0], corr_rule(0, ["r0"])]
     yield [r[0], r[1], corr_rule(0, [UUIDS[0], "r1"], "temporal", generate=True)]
+    yield [r[0], r[1], corr_rule(0, [UUIDS[0].upper(), "{" + UUIDS[1] + "}"], "temporal"), corr_rule(1, [UUIDS[5].upper().replace("-", "")])]
     yield [r[0], r[1], r[2], corr_rule(0, ["r0", "r1"], "temporal"), corr_rule(1, ["c0", "r2"], "temporal"), corr_rule(2, ["c1"])]
     yield [r[0], corr_rule(0, ["r0"]), corr_rule(1, ["r0"], generate=True)]
     yield [r[0], r[1], corr_rule(0, ["r0", "missing"], "temporal")]
@@ -239,7 +251,7 @@ def random_sets(draw):
     plains = [plain_rule(i, with_id=draw(st.booleans()) or True, with_name=True) for i in range(k)]
     ncorr = draw(st.integers(0, 3))
     corrs = []
-    avail = [f"r{i}" for i in range(k)] + [UUIDS[i] for i in range(k)]
+    avail = [f"r{i}" for i in range(k)] + [UUIDS[i] for i in range(k)] + [UUIDS[i].upper() for i in range(k)]
     for j in range(ncorr):
         pool = avail + [f"c{x}" for x in range(j)]
         refs = draw(st.lists(st.sampled_from(pool), min_size=1, max_size=3, unique=True))
